@@ -15,3 +15,12 @@ chk("C20", "PBT over degenerate/long/nested control-flow recipes x all compile c
     "Generated-input search biased to degenerate control-flow shapes (loop first, Break/Continue-only bodies, empty arms, conditional-only cycles, long chains) under every version/mode/option/API combination, each compile in a fresh thread at user-level stack depth; any non-PyTeal exception, or rejection of a program that an independent docs-derived legality model calls legal, is a violation.",
     "Trusts vf/recipe/legal.py (conservative minimum versions from docs/langspec); default recursion limit.",
     "DESIGN.md section 2 C20")
+
+chk("C04", "exhaustive constructor sweep + PBT programs -> compileTeal -> independent TEAL parser/langspec/CFG validity predicate",
+    "Every public constructor x version x mode x assembleConstants is compiled (exhaustive sweep, ~30k cells) and thousands of generated programs under random options; each emitted text is judged by an independently written TEAL grammar, opcode/field/immediate table and CFG termination analysis. Finds wrong min-versions/modes, out-of-range immediates, unresolved labels/placeholders, fall-through and run-off-the-end that golden tests cannot enumerate.",
+    "Trusts vf/teal/langspec.py as the model of the assembler (validated against the 185 golden .teal files; `unsure` entries never judge).",
+    "DESIGN.md section 2 C04")
+chk("C05", "PBT programs -> compileTeal -> abstract interpretation (stack height/type lattice over the CFG) as validity predicate + dynamic TYPE/UNDERFLOW check on the reference interpreter",
+    "Generated programs (recursion, by-ref, loops with Break/Continue, frame-pointer and scratch conventions, optimiser on/off) are analysed per routine: equal relative height on every path, no pop below the routine's own values, retsub/return heights match declared signatures, frame accesses in range, no definitely ill-typed operand; executions of anytype-free programs must not panic with TYPE/UNDERFLOW.",
+    "Trusts opcode stack signatures in vf/teal/langspec.py (self-tested on the golden corpus and on hand-written ill-formed programs) and the reference interpreter.",
+    "DESIGN.md section 2 C05")
